@@ -1,7 +1,9 @@
 (* Props/C04.v — transaction wire codec is lossless; the txid is the witness-stripped hash;
    the fetcher only hands out transactions that hash to the requested id.
-   Statements only, each closed by a lemma of Proofs/{ScriptP,TxP,TxidP}.v and followed by
-   Print Assumptions.  hash256 is universally quantified (no hypothesis on it at all).
+   Statements only, each closed by a lemma of Proofs/{ScriptP,TxP,TxidP,TxStreamP,ScriptCanonP,
+   TxCanonP,TxBytesOkP,FetcherNetP,TxObsP,FuelP,C04DeepP}.v and followed by
+   Print Assumptions.  hash256 is universally quantified (no hypothesis on it; only the three
+   textual-id theorems of section 11 carry the explicit premise that it returns byte strings).
 
    Vocabulary (Spec/TxWf.v):
      cmds_wfb cs      opcodes in {0} u [79,255], pushes of 0..520 bytes
@@ -16,8 +18,12 @@
      canon_tx t       canon_cmds in every script
      strip_tx t       the non-witness data (witness stacks emptied, flag cleared)
      nonwitness_eq    equality of strip_tx                                              *)
-From V Require Import Base.Prelude Base.Ints Model.Helper Model.Script Model.Tx Model.Fetcher
-  Spec.TxWf Proofs.HelperP Proofs.ScriptP Proofs.TxP Proofs.TxidP.
+From Coq Require Import String.
+From V Require Import Base.Prelude Base.Ints Base.Disp Model.Helper Model.Script Model.Tx Model.Fetcher
+  Model.TxStream Model.FetcherNet Spec.TxWf Spec.ScriptCanon Spec.TxSmall
+  Proofs.HelperP Proofs.ScriptP Proofs.TxP Proofs.TxidP
+  Proofs.TxStreamP Proofs.ScriptCanonP Proofs.TxCanonP Proofs.TxBytesOkP Proofs.FetcherNetP
+  Proofs.TxObsP Proofs.C04DeepP Proofs.FuelP.
 
 (* ------------------------------------------------------------------ 0. compact sizes *)
 
@@ -273,3 +279,509 @@ Theorem C04_fetch_accepts_honest : forall (hash256 : bytes -> bytes) t b trailin
   fetch_check hash256 (b ++ trailing) id = Ok (canon_tx t).
 Proof. exact fetch_check_complete. Qed.
 Print Assumptions C04_fetch_accepts_honest.
+
+(* ======================================================================================
+   DEEPENING (sections 6-10).  Additional vocabulary:
+     Model/TxStream.v    stream = (buffer, position); st_read / st_seek_cur = BytesIO.read /
+                         seek(off, 1) with clamping; tx_parse_st = Tx.parse with its
+                         read(4); read(1); seek(-5, 1); st_run p = a forward-only parser p run at
+                         the current position; st_at pre s = the stream pre ++ s positioned on s
+     Spec/ScriptCanon.v  canon_script_bytes / canon_tx_bytes: an independent grammar of the
+                         canonical encodings (minimal pushes, minimal compact sizes, BIP144)
+     Spec/TxSmall.v      tx_smallb (counts and lengths <= MAX_SIZE), tx_bytesb (data are bytes)
+     Model/FetcherNet.v  TxFetcher.fetch with its network argument, URL and id-keyed cache
+   ====================================================================================== *)
+
+(* ------------------------------------------------------------------ 6. anywhere in a stream *)
+
+(* Tx.parse steps back with seek(-5, 1) after sniffing the marker.  On EVERY stream, at EVERY
+   position (also one beyond the end), it returns what the forward-only function tx_parse returns
+   on the remaining bytes and leaves the position right behind what tx_parse consumed: the step
+   back never reaches bytes before the object (with fewer than 5 bytes left it does, and then
+   both sides fail). *)
+Theorem C04_tx_parse_position_independent : forall st, tx_parse_st st = st_run tx_parse st.
+Proof. exact tx_parse_st_run. Qed.
+Print Assumptions C04_tx_parse_position_independent.
+
+Theorem C04_tx_parse_at : forall pre s,
+  tx_parse_st (st_at pre s) =
+  '(t, r) <- tx_parse s ;;
+  Ok (t, {| st_data := pre ++ s; st_pos := (length pre + (length s - length r))%nat |}).
+Proof. exact tx_parse_at. Qed.
+Print Assumptions C04_tx_parse_at.
+
+(* parse (pre ++ serialize t ++ rest), positioned after pre, returns t and leaves exactly rest *)
+Theorem C04_tx_mid_stream : forall t,
+  tx_strictb t = true -> t_segwit t = true \/ t_ins t <> [] ->
+  exists b, tx_serialize t = Ok b /\
+    forall pre rest, tx_parse_st (st_at pre (b ++ rest)) = Ok (t, st_at (pre ++ b) rest).
+Proof. exact tx_mid_stream_strict. Qed.
+Print Assumptions C04_tx_mid_stream.
+
+Theorem C04_tx_mid_stream_canon : forall t,
+  tx_wfb t = true -> t_segwit t = true \/ t_ins t <> [] ->
+  exists b, tx_serialize t = Ok b /\
+    forall pre rest, tx_parse_st (st_at pre (b ++ rest)) = Ok (canon_tx t, st_at (pre ++ b) rest).
+Proof. exact tx_mid_stream. Qed.
+Print Assumptions C04_tx_mid_stream_canon.
+
+Theorem C04_legacy_mid_stream : forall t,
+  tx_wfb t = true ->
+  exists b, serialize_legacy t = Ok b /\
+    forall pre rest,
+      st_run parse_legacy (st_at pre (b ++ rest)) = Ok (strip_tx (canon_tx t), st_at (pre ++ b) rest).
+Proof. exact legacy_mid_stream. Qed.
+Print Assumptions C04_legacy_mid_stream.
+
+(* TxIn, TxOut, Script, ScriptPubKey, Witness, compact size, var-string: forward-only readers *)
+Theorem C04_parts_mid_stream :
+  (forall i, txin_wfb i = true -> exists b, txin_serialize i = Ok b /\ forall pre rest,
+     st_run txin_parse (st_at pre (b ++ rest)) = Ok (strip_in (canon_in i), st_at (pre ++ b) rest)) /\
+  (forall o, txout_wfb o = true -> exists b, txout_serialize o = Ok b /\ forall pre rest,
+     st_run txout_parse (st_at pre (b ++ rest)) = Ok (canon_out o, st_at (pre ++ b) rest)) /\
+  (forall s, script_wfb s = true -> exists b, serialize_script s = Ok b /\ forall pre rest,
+     st_run parse_script (st_at pre (b ++ rest)) = Ok (canon_script s, st_at (pre ++ b) rest) /\
+     st_run parse_script_pubkey (st_at pre (b ++ rest)) = Ok (canon_script s, st_at (pre ++ b) rest)) /\
+  (forall items, lenb items = true -> forallb (fun it => len63b it) items = true ->
+     exists b, witness_serialize items = Ok b /\ forall pre rest,
+     st_run witness_parse (st_at pre (b ++ rest)) = Ok (items, st_at (pre ++ b) rest)) /\
+  (forall n, 0 <= n < 18446744073709551616 -> exists b, encode_varint n = Ok b /\ forall pre rest,
+     st_run read_varint (st_at pre (b ++ rest)) = Ok (n, st_at (pre ++ b) rest)) /\
+  (forall d, zlen d < 9223372036854775808 -> exists b, encode_varstr d = Ok b /\ forall pre rest,
+     st_run read_varstr (st_at pre (b ++ rest)) = Ok (d, st_at (pre ++ b) rest)).
+Proof. exact parts_mid_stream. Qed.
+Print Assumptions C04_parts_mid_stream.
+
+(* any number of transactions back to back (as in a block), behind any prefix *)
+Theorem C04_tx_sequence : forall ts,
+  Forall (fun t => tx_strictb t = true /\ (t_segwit t = true \/ t_ins t <> [])) ts ->
+  exists b, ser_txs ts = Ok b /\
+    forall pre rest, tx_parse_seq (length ts) (st_at pre (b ++ rest)) = Ok (ts, st_at (pre ++ b) rest).
+Proof. exact tx_sequence. Qed.
+Print Assumptions C04_tx_sequence.
+
+Example C04_stream_examples :
+  (b1 <- tx_serialize ex_legacy ;; b2 <- tx_serialize ex_segwit ;;
+   tx_parse_seq 3 (st_at [0; 1; 0] (b1 ++ b2 ++ b1 ++ [0; 0; 0; 0; 0; 1]))) =
+  (b1 <- tx_serialize ex_legacy ;; b2 <- tx_serialize ex_segwit ;;
+   Ok ([ex_legacy; ex_segwit; ex_legacy], st_at ([0; 1; 0] ++ b1 ++ b2 ++ b1) [0; 0; 0; 0; 0; 1])) /\
+  (* fewer than five bytes left: the step back goes into the prefix, and the call fails *)
+  tx_parse_st (st_at [1; 0; 0; 0; 1; 7; 7; 7] [1; 0; 0]) = Err /\
+  tx_parse_st {| st_data := [1; 0; 0; 0; 0; 1; 0; 0; 0; 0; 0; 0]; st_pos := 14 |} = Err.
+Proof. vm_compute. repeat split. Qed.
+
+(* ------------------------------------------------------------------ 7. canonical encodings *)
+
+(* the three length classes of raw_serialize, with the boundaries 75/76, 255/256, 520/521 *)
+Theorem C04_push_encoding : forall d,
+  (zlen d <= 75 -> ser_cmd (Push d) = Ok (zlen d :: d)) /\
+  (76 <= zlen d <= 255 -> ser_cmd (Push d) = Ok (76 :: zlen d :: d)) /\
+  (256 <= zlen d <= 520 -> ser_cmd (Push d) = Ok (77 :: zlen d mod 256 :: zlen d / 256 :: d)) /\
+  (521 <= zlen d -> ser_cmd (Push d) = Err).
+Proof. exact push_encoding. Qed.
+Print Assumptions C04_push_encoding.
+
+(* the parser takes every push form, minimal or not, of any length the form can express *)
+Theorem C04_push_forms_parse : forall d,
+  (1 <= zlen d <= 75 -> parse_raw (zlen d :: d) = Ok (mk_script [Push d])) /\
+  (zlen d < 256 -> parse_raw (76 :: zlen d :: d) = Ok (mk_script [Push d])) /\
+  (zlen d < 65536 -> parse_raw (77 :: to_le 2 (zlen d) ++ d) = Ok (mk_script [Push d])) /\
+  (zlen d < 4294967296 -> parse_raw (78 :: to_le 4 (zlen d) ++ d) = Ok (mk_script [Push d])).
+Proof. exact push_forms_parse. Qed.
+Print Assumptions C04_push_forms_parse.
+
+(* the independent grammar of canonical script bytes = the image of raw_serialize on strict
+   command lists *)
+Theorem C04_script_canonical_iff : forall raw,
+  canon_script_bytes raw <-> exists cs, cmds_strictb cs = true /\ ser_cmds cs = Ok raw.
+Proof. exact canon_bytes_iff. Qed.
+Print Assumptions C04_script_canonical_iff.
+
+(* the converse of the script round trip, for ALL byte strings:
+   Script.parse(raw=b).raw_serialize() == b  iff  b is canonical or the parser kept b in .raw *)
+Theorem C04_script_reserialize_iff : forall raw sc,
+  parse_raw raw = Ok sc ->
+  (raw_serialize sc = Ok raw <-> s_raw sc <> None \/ canon_script_bytes raw).
+Proof. exact reserialize_iff. Qed.
+Print Assumptions C04_script_reserialize_iff.
+
+Theorem C04_script_bytes_roundtrip : forall raw,
+  canon_script_bytes raw ->
+  exists sc, parse_raw raw = Ok sc /\ s_raw sc = None /\ cmds_strictb (s_cmds sc) = true /\
+             raw_serialize sc = Ok raw.
+Proof. exact script_bytes_roundtrip. Qed.
+Print Assumptions C04_script_bytes_roundtrip.
+
+(* FIRST CLAUSE OF C04 against the independent definition: every canonically encoded legacy or
+   segwit transaction, followed by anything, parses to a transaction that consumes exactly the
+   encoding and serialises to exactly the same bytes *)
+Theorem C04_canonical_tx_roundtrip : forall b,
+  canon_tx_bytes b ->
+  exists t, tx_strictb t = true /\ tx_serialize t = Ok b /\
+            forall rest, tx_parse (b ++ rest) = Ok (t, rest).
+Proof. exact canon_tx_bytes_roundtrip. Qed.
+Print Assumptions C04_canonical_tx_roundtrip.
+
+Theorem C04_canonical_tx_reserialize : forall b t rest,
+  canon_tx_bytes b -> tx_parse (b ++ rest) = Ok (t, rest) -> tx_serialize t = Ok b.
+Proof. exact canon_tx_bytes_reserialize. Qed.
+Print Assumptions C04_canonical_tx_reserialize.
+
+Theorem C04_canonical_tx_mid_stream : forall b,
+  canon_tx_bytes b ->
+  exists t, tx_strictb t = true /\ tx_serialize t = Ok b /\
+    forall pre rest, tx_parse_st (st_at pre (b ++ rest)) = Ok (t, st_at (pre ++ b) rest).
+Proof. exact canonical_tx_mid_stream. Qed.
+Print Assumptions C04_canonical_tx_mid_stream.
+
+(* conversely the serialisers emit canonical encodings (counts and lengths within MAX_SIZE), so
+   the grammar describes exactly their image *)
+Theorem C04_serialize_is_canonical : forall t b,
+  tx_wfb t = true -> tx_smallb t = true -> t_segwit t = true \/ t_ins t <> [] ->
+  tx_serialize t = Ok b -> canon_tx_bytes b.
+Proof. exact tx_serialize_canon_bytes. Qed.
+Print Assumptions C04_serialize_is_canonical.
+
+Example C04_canonical_examples :
+  (exists b, tx_serialize ex_legacy = Ok b /\ canon_tx_bytes b) /\
+  (exists b, tx_serialize ex_segwit = Ok b /\ canon_tx_bytes b) /\
+  (exists b, tx_serialize ex_segwit_noin = Ok b /\ canon_tx_bytes b) /\
+  ~ canon_script_bytes [76; 1; 7] /\ ~ canon_script_bytes (77 :: 75 :: 0 :: repeatz 7 75) /\
+  canon_script_bytes (75 :: repeatz 7 75) /\ canon_script_bytes (76 :: 76 :: repeatz 7 76).
+Proof.
+  split; [|split; [|split]].
+  - eexists. split; [vm_compute; reflexivity|].
+    eapply (tx_serialize_canon_bytes ex_legacy); try reflexivity. right. discriminate.
+  - eexists. split; [vm_compute; reflexivity|].
+    eapply (tx_serialize_canon_bytes ex_segwit); try reflexivity. left. reflexivity.
+  - eexists. split; [vm_compute; reflexivity|].
+    eapply (tx_serialize_canon_bytes ex_segwit_noin); try reflexivity. left. reflexivity.
+  - split; [|split; [|split]].
+    + intros C.
+      assert (raw_serialize (mk_script [Push [7]]) = Ok [76; 1; 7]) as X
+        by (apply (proj2 (reserialize_iff [76; 1; 7] (mk_script [Push [7]]) eq_refl)); right; exact C).
+      vm_compute in X. discriminate.
+    + intros C.
+      assert (parse_raw (77 :: 75 :: 0 :: repeatz 7 75) = Ok (mk_script [Push (repeatz 7 75)])) as P
+        by (vm_compute; reflexivity).
+      assert (raw_serialize (mk_script [Push (repeatz 7 75)]) = Ok (77 :: 75 :: 0 :: repeatz 7 75)) as X
+        by (apply (proj2 (reserialize_iff _ _ P)); right; exact C).
+      vm_compute in X. discriminate.
+    + apply (cmds_canon_bytes [Push (repeatz 7 75)]); vm_compute; reflexivity.
+    + apply (cmds_canon_bytes [Push (repeatz 7 76)]); vm_compute; reflexivity.
+Qed.
+
+(* ------------------------------------------------------------------ 8. parser choice; limits *)
+
+Theorem C04_marker_dispatch : forall s,
+  (nth_error s 4 = Some 0 -> tx_parse s = parse_segwit s) /\
+  (nth_error s 4 <> Some 0 -> tx_parse s = parse_legacy s).
+Proof. exact marker_dispatch. Qed.
+Print Assumptions C04_marker_dispatch.
+
+(* a parsed transaction is flagged segwit exactly when byte 5 was 0x00 (and then byte 6 is 0x01) *)
+Theorem C04_parsed_segwit_iff : forall s t r,
+  tx_parse s = Ok (t, r) ->
+  (t_segwit t = true <-> nth_error s 4 = Some 0) /\ (t_segwit t = true -> nth_error s 5 = Some 1).
+Proof. exact parsed_segwit_iff. Qed.
+Print Assumptions C04_parsed_segwit_iff.
+
+(* K-C04-zeroin in general: the legacy serialisation of ANY transaction without inputs goes to
+   the segwit parser and is rejected unless there is exactly one output ... *)
+Theorem C04_legacy_zero_inputs_general : forall t b,
+  tx_wfb t = true -> t_segwit t = false -> t_ins t = [] -> tx_serialize t = Ok b ->
+  tx_parse b = parse_segwit b /\ (length (t_outs t) <> 1%nat -> tx_parse b = Err).
+Proof. exact legacy_zero_inputs_general. Qed.
+Print Assumptions C04_legacy_zero_inputs_general.
+
+(* ... and with exactly one output it can be MISPARSED silently (an empty segwit transaction and
+   leftover bytes) *)
+Theorem C04_legacy_zero_inputs_misparse :
+  tx_strictb zero_in_tx2 = true /\
+  exists b t' rest, tx_serialize zero_in_tx2 = Ok b /\ tx_parse b = Ok (t', rest) /\
+    t' <> zero_in_tx2 /\ rest <> [] /\ t_outs t' = [] /\ t_segwit t' = true.
+Proof. exact legacy_zero_inputs_misparse. Qed.
+Print Assumptions C04_legacy_zero_inputs_misparse.
+
+(* outside the canonical encodings the bytes are NOT reproduced (all replayed on /repo): *)
+Theorem C04_nonminimal_push_refuted :
+  exists raw sc raw', parse_raw raw = Ok sc /\ s_raw sc = None /\
+    raw_serialize sc = Ok raw' /\ raw' <> raw.
+Proof. exact nonminimal_push_refuted. Qed.
+Print Assumptions C04_nonminimal_push_refuted.
+
+Theorem C04_big_push_refuted :
+  exists sc, parse_raw big_push_raw = Ok sc /\ s_raw sc = None /\ raw_serialize sc = Err.
+Proof. exact big_push_refuted. Qed.
+Print Assumptions C04_big_push_refuted.
+
+(* a transaction with a 521-byte push in an output is parsed, but serialize()/hash()/id() raise *)
+Theorem C04_big_push_tx_refuted :
+  exists t, tx_parse big_push_tx_bytes = Ok (t, []) /\ tx_serialize t = Err /\
+    forall hash256 : bytes -> bytes, tx_hash hash256 t = Err.
+Proof. exact big_push_tx_refuted. Qed.
+Print Assumptions C04_big_push_tx_refuted.
+
+(* a stream that ends inside the locktime is accepted (silent short read) *)
+Theorem C04_truncated_accepted_refuted :
+  exists t b, tx_parse trunc_tx_bytes = Ok (t, []) /\ tx_serialize t = Ok b /\
+    b = trunc_tx_bytes ++ [0; 0] /\ b <> trunc_tx_bytes.
+Proof. exact truncated_accepted_refuted. Qed.
+Print Assumptions C04_truncated_accepted_refuted.
+
+Theorem C04_varint_noncanonical_refuted :
+  read_varint [253; 5; 0] = Ok (5, []) /\ read_varint [253; 5] = Ok (5, []) /\
+  read_varint [254] = Ok (0, []) /\ encode_varint 5 = Ok [5].
+Proof. exact varint_noncanonical_refuted. Qed.
+Print Assumptions C04_varint_noncanonical_refuted.
+
+(* the id of every well-formed transaction exists, and it moves with the non-witness data *)
+Theorem C04_tx_hash_total : forall (hash256 : bytes -> bytes) t,
+  tx_wfb t = true -> exists b, serialize_legacy t = Ok b /\ tx_hash hash256 t = Ok (rev (hash256 b)).
+Proof. exact tx_hash_total. Qed.
+Print Assumptions C04_tx_hash_total.
+
+Theorem C04_txid_changes : forall (hash256 : bytes -> bytes) t1 t2 h1 h2,
+  tx_strictb t1 = true -> tx_strictb t2 = true -> ~ nonwitness_eq t1 t2 ->
+  tx_hash hash256 t1 = Ok h1 -> tx_hash hash256 t2 = Ok h2 ->
+  h1 <> h2 \/ exists x y, x <> y /\ hash256 x = hash256 y.
+Proof. exact txid_changes. Qed.
+Print Assumptions C04_txid_changes.
+
+(* ------------------------------------------------------------------ 9. other entry points *)
+
+(* the serialisation of a transaction whose data are byte strings is a byte string *)
+Theorem C04_serialize_bytes_ok : forall t b,
+  tx_wfb t = true -> tx_bytesb t = true -> tx_serialize t = Ok b -> bytes_ok b.
+Proof. exact tx_serialize_bytes. Qed.
+Print Assumptions C04_serialize_bytes_ok.
+
+Theorem C04_clone : forall t,
+  tx_wfb t = true -> t_segwit t = true \/ t_ins t <> [] -> tx_clone t = Ok (canon_tx t).
+Proof. exact tx_clone_wf. Qed.
+Print Assumptions C04_clone.
+
+(* Tx.parse_hex(tx.serialize().hex()) *)
+Theorem C04_parse_hex : forall t b,
+  tx_wfb t = true -> tx_bytesb t = true -> t_segwit t = true \/ t_ins t <> [] ->
+  tx_serialize t = Ok b -> tx_parse_hex (hexlify b) = Ok (canon_tx t).
+Proof. exact parse_hex_api. Qed.
+Print Assumptions C04_parse_hex.
+
+Theorem C04_fromhex_hexlify : forall b, bytes_ok b -> fromhex (hexlify b) = Ok b.
+Proof. exact fromhex_hexlify. Qed.
+Print Assumptions C04_fromhex_hexlify.
+
+(* Script(a) + Script(b) serialises as the two serialisations one after the other, and that
+   parses to the concatenated commands *)
+Theorem C04_script_add : forall a b,
+  cmds_wfb (s_cmds a) = true -> cmds_wfb (s_cmds b) = true ->
+  exists x y, ser_cmds (s_cmds a) = Ok x /\ ser_cmds (s_cmds b) = Ok y /\
+    raw_serialize (script_add a b) = Ok (x ++ y) /\
+    parse_raw (x ++ y) = Ok (mk_script (canon_cmds (s_cmds a) ++ canon_cmds (s_cmds b))).
+Proof. exact script_add_roundtrip. Qed.
+Print Assumptions C04_script_add.
+
+(* Script == compares the commands only; a script parsed from its serialisation == the original *)
+Theorem C04_script_eq : forall a b, script_eqb a b = true <-> s_cmds a = s_cmds b.
+Proof. exact script_eqb_spec. Qed.
+Print Assumptions C04_script_eq.
+
+Theorem C04_script_eq_roundtrip : forall cs,
+  cmds_wfb cs = true ->
+  exists b sc, ser_cmds cs = Ok b /\ parse_raw b = Ok sc /\
+    script_eqb sc (mk_script (canon_cmds cs)) = true /\
+    (cmds_strictb cs = true -> script_eqb sc (mk_script cs) = true).
+Proof. exact script_eq_roundtrip. Qed.
+Print Assumptions C04_script_eq_roundtrip.
+
+Example C04_api_examples :
+  tx_bytesb ex_legacy = true /\ tx_bytesb ex_segwit = true /\ tx_smallb ex_segwit = true /\
+  tx_clone ex_segwit = Ok ex_segwit /\
+  (b <- tx_serialize ex_legacy ;; tx_parse_hex (hexlify b)) = Ok ex_legacy.
+Proof. vm_compute. repeat split. Qed.
+
+(* ------------------------------------------------------------------ 10. fetcher and networks *)
+
+(* one call, any cache satisfying the invariant, any response / network name / freshness: what is
+   returned hashes to the requested id and carries the requested network *)
+Theorem C04_fetch_net_history : forall (hash256 : bytes -> bytes) ops,
+  Forall2 (fun op o => forall t n, fst o = Ok (t, n) ->
+             tx_id hash256 t = Ok (snd (fst op)) /\ n = snd op)
+          ops (fetch_net_run hash256 [] ops).
+Proof. exact fetch_net_history. Qed.
+Print Assumptions C04_fetch_net_history.
+
+(* an unknown network is refused before any request and nothing is cached (miss or fresh) *)
+Theorem C04_fetch_unknown_network : forall (hash256 : bytes -> bytes) c fresh resp id net,
+  get_url net = Err -> fresh = true \/ nlookup c id = None ->
+  fetch_net_step hash256 c fresh resp id net = (c, Err, None).
+Proof. exact fetch_net_unknown. Qed.
+Print Assumptions C04_fetch_unknown_network.
+
+(* the cache is keyed by the id ONLY: a cached id is served, without a request and without looking
+   at the network name, to a non-fresh call on any network (integrity is not affected: see
+   C04_fetch_net_history) *)
+Theorem C04_fetch_cache_hit_any_network : forall (hash256 : bytes -> bytes) c resp id net t n0,
+  nlookup c id = Some (t, n0) ->
+  fetch_net_step hash256 c false resp id net = ((id, (t, net)) :: c, Ok (t, net), None).
+Proof. exact fetch_net_hit. Qed.
+Print Assumptions C04_fetch_cache_hit_any_network.
+
+Theorem C04_fetch_miss_request : forall (hash256 : bytes -> bytes) c fresh resp id net base,
+  get_url net = Ok base -> fresh = true \/ nlookup c id = None ->
+  fetch_net_step hash256 c fresh resp id net =
+  match fetch_text hash256 resp id with
+  | Ok t => ((id, (t, net)) :: c, Ok (t, net), Some (fetch_url base id))
+  | Err => (c, Err, Some (fetch_url base id))
+  end.
+Proof. exact fetch_net_miss. Qed.
+Print Assumptions C04_fetch_miss_request.
+
+Theorem C04_get_url_served : forall net base,
+  get_url net = Ok base <->
+  (net = s2z "mainnet" /\ base = s2z "https://blockstream.info/api") \/
+  (net = s2z "testnet" /\ base = s2z "https://blockstream.info/testnet/api") \/
+  (net = s2z "signet" /\ base = s2z "https://mempool.space/signet/api").
+Proof. exact get_url_served. Qed.
+Print Assumptions C04_get_url_served.
+
+(* completeness at the level of the text the server sends: the hex of the serialisation,
+   surrounded by ASCII white space, under the textual id *)
+Theorem C04_fetch_text_accepts_honest : forall (hash256 : bytes -> bytes) t b h ws1 ws2,
+  tx_wfb t = true -> tx_bytesb t = true -> t_segwit t = true \/ t_ins t <> [] ->
+  tx_serialize t = Ok b -> tx_hash hash256 t = Ok h ->
+  Forall ascii_space ws1 -> Forall ascii_space ws2 ->
+  fetch_text hash256 (ws1 ++ hexlify b ++ ws2) (hexlify h) = Ok (canon_tx t).
+Proof. exact fetch_text_honest. Qed.
+Print Assumptions C04_fetch_text_accepts_honest.
+
+Theorem C04_fetch_net_accepts_honest : forall (hash256 : bytes -> bytes) t b h ws1 ws2 net base fresh,
+  tx_wfb t = true -> tx_bytesb t = true -> t_segwit t = true \/ t_ins t <> [] ->
+  tx_serialize t = Ok b -> tx_hash hash256 t = Ok h ->
+  Forall ascii_space ws1 -> Forall ascii_space ws2 -> get_url net = Ok base ->
+  fetch_net_step hash256 [] fresh (ws1 ++ hexlify b ++ ws2) (hexlify h) net =
+  ([(hexlify h, (canon_tx t, net))], Ok (canon_tx t, net), Some (fetch_url base (hexlify h))).
+Proof. exact fetch_net_honest. Qed.
+Print Assumptions C04_fetch_net_accepts_honest.
+
+(* a run with a toy hash: honest fetch on testnet (request made), then the same id "on" an
+   unserved network name with a garbage response (cache hit: no request, relabelled), then a
+   fresh call on the unserved network (refused) *)
+Definition toy_hash (b : bytes) : bytes := firstn 8 (rev b ++ repeatz 0 8).
+Example C04_fetch_net_example :
+  (b <- tx_serialize ex_legacy ;; h <- tx_hash toy_hash ex_legacy ;;
+   Ok (fetch_net_run toy_hash []
+         [(false, hexlify b ++ [10], hexlify h, s2z "testnet");
+          (false, [122; 122], hexlify h, s2z "regtest");
+          (true, hexlify b, hexlify h, s2z "regtest")])) =
+  (h <- tx_hash toy_hash ex_legacy ;;
+   Ok [(Ok (ex_legacy, s2z "testnet"),
+        Some (s2z "https://blockstream.info/testnet/api/tx/" ++ hexlify h ++ s2z "/hex"));
+       (Ok (ex_legacy, s2z "regtest"), None);
+       (Err, None)]).
+Proof. vm_compute. reflexivity. Qed.
+
+(* ------------------------------------------------------------------ 11. glue, loops, textual id *)
+
+(* Script.parse(stream=None, raw=None): the argument check *)
+Theorem C04_script_parse_args :
+  (forall s, script_parse_args (Some s) None = '(sc, rest) <- parse_script s ;; Ok (sc, Some rest)) /\
+  (forall r, script_parse_args None (Some r) = sc <- parse_raw r ;; Ok (sc, None)) /\
+  (forall s, script_parse_args (Some s) (Some []) = Ok (mk_script [], Some s)) /\
+  (forall s x r, script_parse_args (Some s) (Some (x :: r)) = Err) /\
+  script_parse_args None None = Err.
+Proof. exact script_parse_args_spec. Qed.
+Print Assumptions C04_script_parse_args.
+
+(* TxIn(prev_tx, prev_index) with the constructor defaults is a strict well-formed input (so all
+   round-trip theorems apply to it) and serialises to the 41 bytes hash | index | 00 | ffffffff *)
+Theorem C04_txin_default : forall pt pi,
+  length pt = 32%nat -> u32b pi = true ->
+  txin_wfb (txin_default pt pi) = true /\
+  cmds_strictb (s_cmds (i_script (txin_default pt pi))) = true /\
+  txin_serialize (txin_default pt pi) = Ok (rev pt ++ to_le 4 pi ++ [0] ++ [255; 255; 255; 255]).
+Proof. exact txin_default_layout. Qed.
+Print Assumptions C04_txin_default.
+
+(* the fuel of the model's four parser loops is only a termination device: any fuel >= the number
+   of remaining bytes gives the same result (every successful iteration consumes a byte) *)
+Theorem C04_fuel_irrelevant :
+  (forall f1 f2 s count len acc, (length s <= f1)%nat -> (length s <= f2)%nat ->
+     parse_loop f1 s count len acc = parse_loop f2 s count len acc) /\
+  (forall f1 f2 n s acc, (length s <= f1)%nat -> (length s <= f2)%nat ->
+     ins_loop f1 n s acc = ins_loop f2 n s acc) /\
+  (forall f1 f2 n s acc, (length s <= f1)%nat -> (length s <= f2)%nat ->
+     outs_loop f1 n s acc = outs_loop f2 n s acc) /\
+  (forall f1 f2 n s acc, (length s <= f1)%nat -> (length s <= f2)%nat ->
+     witness_loop f1 n s acc = witness_loop f2 n s acc).
+Proof. exact fuel_irrelevant. Qed.
+Print Assumptions C04_fuel_irrelevant.
+
+(* the TEXTUAL id (what the fetcher compares) binds the witness-stripped bytes, for arbitrary
+   objects (also parsed ones carrying .raw); the only premise is that hash256 returns bytes *)
+Theorem C04_tx_id_binding : forall (hash256 : bytes -> bytes),
+  (forall x, bytes_ok (hash256 x)) -> forall t1 t2 s,
+  tx_id hash256 t1 = Ok s -> tx_id hash256 t2 = Ok s ->
+  (exists b, serialize_legacy t1 = Ok b /\ serialize_legacy t2 = Ok b) \/
+  exists x y, x <> y /\ hash256 x = hash256 y.
+Proof. exact tx_id_binding. Qed.
+Print Assumptions C04_tx_id_binding.
+
+Theorem C04_tx_id_binding_wf : forall (hash256 : bytes -> bytes),
+  (forall x, bytes_ok (hash256 x)) -> forall t1 t2 s,
+  tx_wfb t1 = true -> tx_wfb t2 = true ->
+  tx_id hash256 t1 = Ok s -> tx_id hash256 t2 = Ok s ->
+  nonwitness_eq (canon_tx t1) (canon_tx t2) \/ exists x y, x <> y /\ hash256 x = hash256 y.
+Proof. exact tx_id_binding_wf. Qed.
+Print Assumptions C04_tx_id_binding_wf.
+
+(* two accepted answers for one id — from any servers, any bytes — carry the same non-witness
+   bytes, or exhibit a collision *)
+Theorem C04_fetch_unique : forall (hash256 : bytes -> bytes),
+  (forall x, bytes_ok (hash256 x)) -> forall resp1 resp2 id t1 t2,
+  fetch_text hash256 resp1 id = Ok t1 -> fetch_text hash256 resp2 id = Ok t2 ->
+  (exists b, serialize_legacy t1 = Ok b /\ serialize_legacy t2 = Ok b) \/
+  exists x y, x <> y /\ hash256 x = hash256 y.
+Proof. exact fetch_unique. Qed.
+Print Assumptions C04_fetch_unique.
+
+(* witness stacks with 253 items (3-byte count) and an item of 253 bytes (3-byte length) *)
+Example C04_witness_253 :
+  (b <- witness_serialize (repeat [7] 253) ;; Ok (firstn 5 b)) = Ok [253; 253; 0; 1; 7] /\
+  (b <- witness_serialize (repeat [7] 253) ;; witness_parse (b ++ [9])) = Ok (repeat [7] 253, [9]) /\
+  (b <- witness_serialize [repeatz 7 253; []] ;; Ok (firstn 4 b)) = Ok [2; 253; 253; 0] /\
+  bytes_ok (toy_hash [1; 2; 3]).
+Proof. split; [|split; [|split]]; try (vm_compute; reflexivity). apply bytes_okb_ok. vm_compute. reflexivity. Qed.
+
+(* ------------------------------------------------------------------ 12. the cache's consumers *)
+
+(* TxIn.value(network) / TxIn.script_pubkey(network) (memo fields unset) read output #prev_index of
+   TxFetcher.fetch(prev_tx.hex(), network): for any cache satisfying the invariant, any response
+   and any network, that output belongs to a transaction whose textual id is the hex of prev_tx *)
+Theorem C04_txin_prevout_sound : forall (hash256 : bytes -> bytes) c i net resp c' o u,
+  ncache_ok hash256 c -> txin_prevout hash256 c i net resp = (c', Ok o, u) ->
+  exists t, tx_id hash256 t = Ok (hexlify (i_prev_tx i)) /\
+            py_index (t_outs t) (i_prev_index i) = Ok o /\ In o (t_outs t) /\ ncache_ok hash256 c'.
+Proof. exact txin_prevout_sound. Qed.
+Print Assumptions C04_txin_prevout_sound.
+
+(* from an empty cache, with a hash256 that returns bytes: the HASH of that transaction is prev_tx *)
+Theorem C04_txin_prevout_hash : forall (hash256 : bytes -> bytes),
+  (forall x, bytes_ok (hash256 x)) -> forall i net resp c' o u,
+  bytes_ok (i_prev_tx i) -> txin_prevout hash256 [] i net resp = (c', Ok o, u) ->
+  exists t, tx_hash hash256 t = Ok (i_prev_tx i) /\ py_index (t_outs t) (i_prev_index i) = Ok o.
+Proof. exact txin_prevout_hash. Qed.
+Print Assumptions C04_txin_prevout_hash.
+
+Example C04_txin_prevout_example :
+  (b <- tx_serialize ex_legacy ;; h <- tx_hash toy_hash ex_legacy ;;
+   let i := {| i_prev_tx := h; i_prev_index := 1; i_script := mk_script []; i_sequence := 0;
+               i_witness := [] |} in
+   Ok (snd (fst (txin_prevout toy_hash [] i (s2z "mainnet") (hexlify b))),
+       snd (fst (txin_prevout toy_hash [] i (s2z "mainnet") [48; 48])),
+       snd (fst (txin_prevout toy_hash []
+                   {| i_prev_tx := h; i_prev_index := 2; i_script := mk_script []; i_sequence := 0;
+                      i_witness := [] |} (s2z "mainnet") (hexlify b))))) =
+  Ok (Ok ex_out, Err, Err).
+Proof. vm_compute. reflexivity. Qed.
